@@ -160,7 +160,11 @@ def confirm_plain(ctx, cs, example):
         if p is None or p.returncode != 0:
             bad = 'unguarded interpreter died (rc=%s) on %s' % (getattr(p, 'returncode', 'timeout'), _brief(c))
             break
-        evs.append(json.loads(p.stdout))
+        got = json.loads(p.stdout)
+        if tracecheck.monstrous(got):
+            bad = 'without the guard the library returns a number with thousands of digits on %s' % _brief_any(c)
+            break
+        evs.append(got)
     if bad is None and evs:
         v = tracecheck.validate([evs], 'CatalogueTrace', tag=ctx.pid + '-plain')
         for e in v.errors:
@@ -238,3 +242,10 @@ def replay(ctx, rp):
         confirm_plain(ctx, r['cases'], 'replay')
     else:
         judge(ctx, [dict(r['case'])], 'replay', docs=False)
+
+
+def _brief_any(c):
+    try:
+        return brief(c) if 'brief' in globals() else _brief(c)
+    except Exception:
+        return json.dumps(c)[:160]
